@@ -446,6 +446,16 @@ long long c_delineate_river(long long nrows, long long ncols,
     return 0;
 }
 
+/* Squared distance (in cells) between two cells one step apart:
+ * 1 for an orthogonal step, 2 for a diagonal step */
+static double stepsquaredist(long long ncols, long long n1, long long n2)
+{
+    long long nxy1[2], nxy2[2];
+    getnxy(ncols, n1, nxy1);
+    getnxy(ncols, n2, nxy2);
+    return nxy1[0] == nxy2[0] || nxy1[1] == nxy2[1] ? 1 : 2;
+}
+
 long long c_delineate_flowpathlengths_in_catchment(long long nrows,
     long long ncols,
     long long * flowdircode,
@@ -456,7 +466,6 @@ long long c_delineate_flowpathlengths_in_catchment(long long nrows,
     double * flowpathlengths)
 {
     long long ierr=0, ierr_down=0, i, ipath, idxcell_up[1], idxcell_down[1];
-    long long diff;
     double squaredist, length;
 
     /* Loop through all cells in catchment area */
@@ -484,8 +493,7 @@ long long c_delineate_flowpathlengths_in_catchment(long long nrows,
                 break;
 
             /* Compute distance between up and down cell */
-            diff = abs(*idxcell_down - *idxcell_up);
-            squaredist = diff == 1 || diff == ncols ? 1 : 2;
+            squaredist = stepsquaredist(ncols, *idxcell_down, *idxcell_up);
 
             /* Iterate */
             *idxcell_up = *idxcell_down;
@@ -498,8 +506,7 @@ long long c_delineate_flowpathlengths_in_catchment(long long nrows,
         if(ipath < nval && *idxcell_down >= 0)
         {
             /* Compute distance between up and down cell */
-            diff = abs(*idxcell_down - *idxcell_up);
-            squaredist = diff == 1 || diff == ncols ? 1 : 2;
+            squaredist = stepsquaredist(ncols, *idxcell_down, *idxcell_up);
             length += sqrt(squaredist);
         }
 
